@@ -327,6 +327,19 @@ func resolveFaults(c *COCase, l *layout, fileSize int) []resolvedFault {
 			off, size = 0, fileSize
 		}
 		p := off + int(f.Off)%size
+		if f.Region == "blocktail" && l != nil && len(l.Blocks) > 0 {
+			// the trailer of a data block (or of the index block): restart
+			// offsets, restart count, checksum - the last 28 bytes
+			b := l.Blocks[int(f.Off>>8)%len(l.Blocks)]
+			endOff := b.Off + b.Size
+			if (f.Off>>8)%5 == 4 {
+				endOff = l.IndexOff + l.IndexSize
+			}
+			p = endOff - 1 - int(f.Off&0xff)%28
+			if p < 0 {
+				p = 0
+			}
+		}
 		if in, next := l.inBloomHeader(p); in && !ev.Flag("sst_corrupt_bloom_header") {
 			// open finding: the per-block filter header is trusted unchecked;
 			// move the fault into the filter's bit array
